@@ -895,6 +895,8 @@ def generate(rng, max_ops=12):
             holders.append((cur, setn, usen))
     # history
     nops = rng.range(4, max_ops)
+    focus = rng.sample(["holder", "isclosure", "mklist", "mapcall", "filtcall", "repeat", "assign", "make", "remake", "new", "mcall",
+                        "fetch", "pushlist", "assign_s", "tblset", "assign_optn"], 3) if rng.chance(1, 2) else []
     hist = []
     objs = []
     made = []       # (variable, factory) pairs: variables that hold a factory product
@@ -926,6 +928,9 @@ def generate(rng, max_ops=12):
         choices.append(("tblset", 2))
         if g.of_type(top, "optn"):
             choices.append(("assign_optn", 3))
+        if focus:
+            # swarm: this history concentrates on a few kinds of operation (calls always stay likely)
+            choices = [(kk, w * 6 if kk in focus else w) for kk, w in choices]
         k = rng.weighted(choices)
         if k == "tblset":
             # an element of the table changes: variables that were assigned from it keep their values
